@@ -130,6 +130,14 @@ def oracle(ck, extended):
             row = tuple(col[k].copy() if k in share else gen.int_filter(rng, Lc) for k in range(4))
         x = gen.int_tensor(rng, (rng.randint(1, 2), rng.randint(1, 2), gen.pick_len(rng, Lc, 18), gen.pick_len(rng, Lr, 18)))
         rt.guard(ck, oracle_axes, ck, m, J, col, row, x)
+    # images above every blocking / tiling threshold (gen.scale_shapes_2d): a long wavelet on one axis and a short one on the
+    # other, both ways round, every mode
+    for k, shp in enumerate(gen.scale_shapes_2d(ck.tier)):
+        for m in gen.MODES5:
+            a, b = [('db5', 'db1'), ('db1', 'db5'), ('bior2.4', 'db2'), ('db2', 'sym6')][(k + m) % 4]
+            wa, wb = pywt.Wavelet(a), pywt.Wavelet(b)
+            rt.guard(ck, oracle_axes, ck, m, 1 + (k + m) % 2, tuple(np.array(v) for v in wa.filter_bank), tuple(np.array(v) for v in wb.filter_bank),
+                     gen.float_tensor(ck.nprng, shp), tol=1e-9, named='%s x %s' % (a, b))
     names = ['db1', 'db2', 'db3', 'sym4', 'coif1', 'bior1.3', 'bior2.2', 'bior3.1', 'rbio2.4', 'db5', 'bior4.4', 'dmey'] if not q else ['db1', 'db2', 'db3', 'sym4', 'bior1.3', 'bior2.2']
     pairs = [(a, b) for a in names for b in names if a != b]
     for a, b in (rng.sample(pairs, 12) if q else pairs):
